@@ -27,16 +27,16 @@ class C20(Prop):
                 'translated (listed per function in the evidence)',
                 'one-dimensional array reductions c_ln_normalise, c_dkl, c_dkl_uniform are translated (left folds) and evaluated against '
                 'ln_normalise / dkl of the Python path, without an equality theorem',
-                'kernels with a correspondence check but no equality theorem: cTape_MT6, cN_SDR, csingleSDR_SDR; uniform_prior_ratio in the '
-                'dimension-jump cases (equal only up to the rounding of the Beta normalisation constant)']
+                'cTP_SDR is translated but not evaluated; uniform_prior_ratio in the dimension-jump cases is equal only up to the rounding of the Beta normalisation constant']
     rule = ('every translated kernel on 40 (thorough 600) generated argument tuples from the domain of the Python function it replaces '
             '(signs, zeros where admitted, magnitudes 1e-3..1e3, angles over their ranges); non-trivial = all arguments non-zero')
 
     KERNELS = ['cprobability.gaussian_pdf', 'cprobability.gaussian_cdf', 'cprobability.pol_pdf', 'cprobability.pol_prob_pdf',
                'cprobability.ar_pdf', 'cprobability.combine', 'cprobability.estimate_scale_mu_s',
                'cmcmc.gaussian_transition_ratio', 'cmcmc.uniform_prior_ratio', 'cmcmc.flat_prior_ratio', 'cmcmc.gaussian_jump_prob',
-               'cconvert.cE_gd', 'cconvert.cE_tk', 'cconvert.ctk_uv', 'cconvert.cTape_MT6', 'cconvert.csingleSDR_SDR',
+               'cconvert.cE_gd', 'cconvert.cE_tk', 'cconvert.ctk_uv', 'cconvert.cTape_MT6', 'cconvert.csingleSDR_SDR', 'cconvert.cN_SDR',
                'cprobability.c_ln_normalise', 'cprobability.dkl', 'cmcmc.acceptance']
+    HORIZONTAL_OK = False
     LOOPS = {'cprobability.c_ln_normalise': ['cprobability.c_ln_normalise'], 'cprobability.dkl': ['cprobability.c_ln_normalise', 'cprobability.c_dkl']}
 
     def setup(self):
@@ -156,6 +156,17 @@ class C20(Prop):
                     q_ = [v if v != NEG_INF else -40.0 + sh for v in ln_()]
                     yield {'kind': 'kernel', 'kernel': k, 'args': [rng.choice([1.0, 0.5, 2.0, 1e-3])], 'p': p_, 'q': q_}
                     continue
+                elif k.endswith('cN_SDR'):
+                    # unit normal and a unit slip vector in the fault plane; HORIZONTAL_OK is switched on once the compiled kernel has the in-plane rake branch
+                    st_, dp_, rk_ = rng.uniform(0, 2 * PI), rng.uniform(0.02, PI / 2 - 0.02), rng.uniform(-PI, PI)
+                    if self.HORIZONTAL_OK and rng.random() < 0.25:
+                        dp_ = rng.choice([0.0, 0.0, 1e-9, 3e-7])
+                    nrm = [-math.sin(dp_) * math.sin(st_), math.sin(dp_) * math.cos(st_), -math.cos(dp_)]
+                    slp = [math.cos(rk_) * math.cos(st_) + math.sin(rk_) * math.cos(dp_) * math.sin(st_),
+                           math.cos(rk_) * math.sin(st_) - math.sin(rk_) * math.cos(dp_) * math.cos(st_), -math.sin(rk_) * math.sin(dp_)]
+                    if rng.random() < 0.3:
+                        nrm, slp = [-v for v in nrm], [-v for v in slp]        # upward normal: the kernel flips both
+                    a = nrm + slp
                 else:
                     a = [rng.uniform(0, 2 * PI), rng.uniform(0.02, PI / 2 - 0.02), rng.uniform(-PI, PI)]
                 yield {'kind': 'kernel', 'kernel': k, 'args': a}
@@ -325,6 +336,9 @@ class C20(Prop):
         if k.endswith('cTape_MT6'):
             m = conv.Tape_MT6(*[np.array([v]) for v in a])
             return {'v': [float(v) for v in np.asarray(m, dtype=float).flatten()]}
+        if k.endswith('cN_SDR'):
+            s_, d_, r_ = conv.FP_SDR(np.matrix(a[0:3], dtype=float).T, np.matrix(a[3:6], dtype=float).T)
+            return {'v': [float(np.asarray(s_).flatten()[0]), float(np.asarray(d_).flatten()[0]), float(np.asarray(r_).flatten()[0])]}
         if k.endswith('csingleSDR_SDR'):
             s2, d2, r2 = conv.SDR_SDR(a[0], a[1], a[2])
             return {'v': [float(np.asarray(s2).flatten()[0]), float(np.asarray(d2).flatten()[0]), float(np.asarray(r2).flatten()[0])]}
@@ -502,7 +516,7 @@ class C20(Prop):
             return ['pyx %s %s' % (k, b([0.0] * 5 + [a[0], a[1]]))]
         if k.endswith('cTape_MT6'):
             return ['pyx %s %s' % (k, b(a + [0.0] * 6))]
-        if k.endswith('csingleSDR_SDR'):
+        if k.endswith('csingleSDR_SDR') or k.endswith('cN_SDR'):
             return ['pyx %s %s' % (k, b(a + [0.0] * 3))]
         return ['pyx %s %s' % (k, b(a))]
 
@@ -568,7 +582,7 @@ class C20(Prop):
             tol = 1e-7 + 4e-15 * (1 / case['args'][3] ** 2 + 1 / case['args'][4] ** 2)
         if k.endswith('uniform_prior_ratio'):
             tol = 1e-9
-        if k.endswith('csingleSDR_SDR') or k.endswith('cE_gd'):
+        if k.endswith('csingleSDR_SDR') or k.endswith('cE_gd') or k.endswith('cN_SDR'):
             tol = 1e-7
         out = []
         if len(vals) != len(want):
@@ -577,7 +591,7 @@ class C20(Prop):
             if (m != m) and (p != p):
                 continue
             ok = close(m, p, rtol=tol, atol=1e-300 if k.endswith('.ar_pdf') else 1e-12)
-            if not ok and k.endswith('csingleSDR_SDR'):
+            if not ok and (k.endswith('csingleSDR_SDR') or k.endswith('cN_SDR')):
                 # angles modulo 2 pi
                 ok = abs(((m - p + PI) % (2 * PI)) - PI) < 1e-7
             if not ok:
